@@ -73,7 +73,8 @@ def random_case(rng, features=()):
     files = {}
     dirs = ["cb/src", "cb/src/sub", "cb/inc", "cb/sys"]
     if "outside" in features:
-        dirs.append("ext")
+        # outside the code base; sometimes in a sibling directory whose NAME merely extends the code-base directory's name
+        dirs.append(rng.choice(["ext", "cb_ext"]))
     # headers: each name in 1..3 directories, different content per directory
     placed = {}
     for hi, h in enumerate(HEADERS):
